@@ -374,6 +374,17 @@ class State:
                             self.set_bounds(s, None, v - 1)
                 elif d.is_const() and d.k == 0:
                     raise Infeasible()
+                else:
+                    # a != b together with a known a <= b (or b <= a) is the strict inequality
+                    try:
+                        if self.prove_le0(d, fast=True):
+                            self.add_con(d + Lin.const(1))
+                        elif self.prove_le0(Lin.const(0) - d, fast=True):
+                            self.add_con(Lin.const(1) - d)
+                    except Infeasible:
+                        raise
+                    except Exception:
+                        pass
             return
         if k == 'and':
             self.assume(cond[1])
@@ -551,7 +562,7 @@ def join_states(an, a, b, frame, bb, widen=False):
             if va is not None and vb is not None and len(va | vb) <= MAX_SET and not widen:
                 r.sets[s] = va | vb
             # relational facts about the phi: keep constraints c(x) that hold for both inputs
-            r_phi_rel.append((s, x[1], y[1]))
+            r_phi_rel.append((s, x[1], y[1]) + ctx[-1])
             # bit-level definition of the merged value (bits equal on both sides stay known); a phi that is re-joined with
             # itself (loop head) stands for more values than its first two inputs: no definition
             bd = getattr(an, 'bitdef', None)
@@ -583,15 +594,16 @@ def join_states(an, a, b, frame, bb, widen=False):
             if va_ is not None and vb_ is not None:
                 for v_ in (va_ | vb_):
                     ina_, inb_ = v_ in va_, v_ in vb_
+                    ca_, cb_ = ctx[-1][0], ctx[-1][1]
                     if ina_ and not inb_:
-                        # facts of side a hold whenever the value has variant v_
-                        guards[v_] = ('A', gx.get(v_))
+                        # facts of side a hold whenever the value has variant v_ (incl. the guards of the enclosing variants)
+                        guards[v_] = ('A', (gx.get(v_) or frozenset()) | ca_)
                     elif inb_ and not ina_:
-                        guards[v_] = ('B', gy.get(v_))
+                        guards[v_] = ('B', (gy.get(v_) or frozenset()) | cb_)
                     else:
-                        # present on both sides: keep only guards present on both
-                        if gx.get(v_) is not None and gx.get(v_) == gy.get(v_):
-                            guards[v_] = ('K', gx.get(v_))
+                        # present on both sides: the facts of this variant are those that hold on both sides (each side: what
+                        # its state knows beyond the join result, plus its own guard for the variant)
+                        guards[v_] = ('AB', ((gx.get(v_) or frozenset()) | ca_, (gy.get(v_) or frozenset()) | cb_))
             pending_guards.append((tag, guards))
             fl = {}
             for k in set(x[3]) | set(y[3]):
@@ -620,7 +632,11 @@ def join_states(an, a, b, frame, bb, widen=False):
                         else:
                             fl[k] = TOP
                     continue
-                v = jv(p, q, '%s.%s.%s' % (tag, k[0], k[1]))
+                ctx.append((ctx[-1][0] | (gx.get(k[0]) or frozenset()), ctx[-1][1] | (gy.get(k[0]) or frozenset()), ctx[-1][2] or (tag, k[0])))
+                try:
+                    v = jv(p, q, '%s.%s.%s' % (tag, k[0], k[1]))
+                finally:
+                    ctx.pop()
                 if v is not None:
                     fl[k] = v
             nm_ = x[4] if len(x) > 4 and len(y) > 4 and x[4] == y[4] else None
@@ -679,6 +695,7 @@ def join_states(an, a, b, frame, bb, widen=False):
     phi_objs = set()
     pending_guards = []
     late_syms = []
+    ctx = [(frozenset(), frozenset(), None)]     # guard facts of the enclosing variants on side a / side b, owner (tag, variant)
     for k in set(a.env) & set(b.env):
         v = jv(a.env[k], b.env[k], 'f%s_%d' % (k[0], k[1]))
         if v is not None:
@@ -712,18 +729,43 @@ def join_states(an, a, b, frame, bb, widen=False):
     # hard in general) we only transfer facts of the shape  x - e <= k  where e is a symbol-expression common to both
     diff_syms = [x for x in (set(a.lo) | set(a.hi)) & (set(b.lo) | set(b.hi))
                  if (a.lo.get(x) != b.lo.get(x) or a.hi.get(x) != b.hi.get(x)) and not x.startswith('phi(')][:40] if r_phi_rel and not widen else []
-    for (s, la_, lb_) in (r_phi_rel if not widen else []):
+    ctx_states = {}
+    guard_extra = {}
+
+    def with_facts(st_, facts, key):
+        if not facts:
+            return st_
+        k_ = (key, facts)
+        if k_ not in ctx_states:
+            s2_ = st_.copy()
+            try:
+                for f_ in facts:
+                    s2_.apply_fact(f_)
+            except Infeasible:
+                s2_ = None
+            ctx_states[k_] = s2_
+        return ctx_states[k_]
+    for ent in (r_phi_rel if not widen else []):
+        (s, la_, lb_) = ent[:3]
+        ca_, cb_, owner = ent[3:] if len(ent) > 3 else (frozenset(), frozenset(), None)
+        sa_, sb_ = with_facts(a, ca_, 'a'), with_facts(b, cb_, 'b')
+        if sa_ is None or sb_ is None:
+            continue
         ps = Lin.sym(s)
         cands = set()
-        for st, lin in ((a, la_), (b, lb_)):
+        for st, lin in ((sa_, la_), (sb_, lb_)):
             for c in st.cons:
                 # c = lin*m + rest  (m = 1)
                 d = c - lin
                 if all(x not in d.co for x in lin.co):
                     cands.add(d)   # fact: lin + d <= 0
         for d in cands:
-            if a.prove_le0(la_ + d, fast=True) and b.prove_le0(lb_ + d, fast=True):
-                r.cons.add(ps + d)
+            if sa_.prove_le0(la_ + d, fast=True) and sb_.prove_le0(lb_ + d, fast=True):
+                if (ca_ or cb_) and owner is not None:
+                    # established under the guards of the enclosing variant: the fact belongs to that guard
+                    guard_extra.setdefault(owner, set()).add(ps + d)
+                elif not (ca_ or cb_):
+                    r.cons.add(ps + d)
         # interval-only relations that the join would lose: phi <= x / x <= phi for symbols x whose bounds differ
         for x in diff_syms:
             lx = Lin.sym(x)
@@ -746,7 +788,7 @@ def join_states(an, a, b, frame, bb, widen=False):
                 if s_ in st_.hi and (s_ not in r.hi or st_.hi[s_] > r.hi[s_]):
                     r.hi[s_] = st_.hi[s_]
     if pending_guards:
-        _resolve_guards(r, a, b, pending_guards)
+        _resolve_guards(r, a, b, pending_guards, guard_extra)
     gc_state(r)
     gc_state(a)
     changed = not (r.env == a.env and r.mem == a.mem and r.lo == a.lo and r.hi == a.hi and r.sets == a.sets and r.cons == a.cons)
@@ -793,7 +835,19 @@ def _side_facts(side, r):
     return frozenset(out)
 
 
-def _resolve_guards(r, a, b, pending):
+def _with_facts(st_, facts):
+    if not facts:
+        return st_
+    s2_ = st_.copy()
+    try:
+        for f_ in facts:
+            s2_.apply_fact(f_)
+    except Infeasible:
+        return None
+    return s2_
+
+
+def _resolve_guards(r, a, b, pending, extra=None):
     fa = fb = None
     table = {}
     for tag, guards in pending:
@@ -807,8 +861,28 @@ def _resolve_guards(r, a, b, pending):
                 if fb is None:
                     fb = _side_facts(b, r)
                 facts = fb | (old or frozenset())
+            elif side == 'AB':
+                if fa is None:
+                    fa = _side_facts(a, r)
+                if fb is None:
+                    fb = _side_facts(b, r)
+                FA = fa | (old[0] or frozenset())
+                FB = fb | (old[1] or frozenset())
+                keep = set(FA & FB)
+                sa_, sb_ = _with_facts(a, old[0]), _with_facts(b, old[1])
+                for f_, other in [(x, sb_) for x in FA - FB] + [(x, sa_) for x in FB - FA]:
+                    if isinstance(f_, Lin) and other is not None:
+                        try:
+                            if other.prove_le0(f_, fast=True):
+                                keep.add(f_)
+                        except Exception:
+                            pass
+                facts = frozenset(keep)
             else:
                 facts = old
+            ex_ = (extra or {}).get((tag, v_))
+            if ex_:
+                facts = frozenset(facts or ()) | frozenset(ex_)
             if facts:
                 g[v_] = facts
         table[tag] = g
